@@ -99,6 +99,11 @@ def run(ctx, budget, findings_tokens=True):
         bad = b''.join(gen.frame(t, bytes(rng.randrange(256) for _ in range(n)), 7, 0, 0) for t, n in ((10000, 20), (10001, 9)))
         log = rc.make_log(rng, rng.choice([4, 9]), junk=True) + bad + rc.make_log(rng, rng.choice([3, 8]), junk=False, t_start=300.5)
         files.append((log, 'timedN', 128, 256))
+    # P1 timestamps at the edges of the wire format (non-canonical nanoseconds, second counts that do not fit the index)
+    bt = ic.boundary_time_messages(rng)
+    files.append((b''.join(bt), 'boundary-times', 80 * 1024, 16 * 1024))
+    for m in bt:
+        files.append((b'\x01\x02' + m + gen.frame(9, b'z', 77), 'boundary-time', 80 * 1024, 16 * 1024))
     # every shift of one message pair across a block boundary (odd and even offsets)
     R, M = 64, 64
     base, _ = gen.small_file(rng, 3, M, 'VUW')
